@@ -18,6 +18,7 @@ package mysql
 
 import (
 	"errors"
+	"strings"
 
 	"github.com/sirupsen/logrus"
 
@@ -204,6 +205,14 @@ func (filter *SearchableQueryFilter) filterColumnEqualComparisonExprs(stmt sqlpa
 			}
 
 			logrus.Infoln("Searchable encryption/tokenization support equal comparison only by SQLVal but not by ColName")
+		}
+
+		// <ColName> = _binary 'value': the introducer only tells the type of the literal (client libraries put it before
+		// binary values), the comparison is rewritten like the one with the bare literal
+		if unary, ok := comparisonExpr.Right.(*sqlparser.UnaryExpr); ok && strings.TrimSpace(unary.Operator) == "_binary" {
+			if sqlVal, ok := unary.Expr.(*sqlparser.SQLVal); ok && isSupportedSQLVal(sqlVal) {
+				comparisonExpr.Right = sqlVal
+			}
 		}
 
 		if sqlVal, ok := comparisonExpr.Right.(*sqlparser.SQLVal); ok && isSupportedSQLVal(sqlVal) {
